@@ -43,7 +43,7 @@ def fam_padded_slots(q):
     compiler prepends 20 ANY items, the rule occupies q + 20 slots (limit 64 on the padded rule)"""
     return HDR + GT + "table(sub) pass(1) %s > %s cS; cB > cS / %s _; endpass; endtable;\n" % (
         " ".join(["cA"] * q), " ".join(["cA"] * (q - 1)), " ".join(["cB"] * 20)), [], \
-        lambda s, g: (s["passes"][0]["ruleSortKeys"][0], s["passes"][0]["rulePreContext"][0]), (q, 0)
+        lambda s, g: (s["passes"][0]["ruleSortKeys"][0], s["passes"][0]["rulePreContext"][0]), ((q, 0) if q + 20 <= 64 else "MUST-REJECT")
 
 
 def fam_features(q):
@@ -209,7 +209,9 @@ def run(tier, seed, replay=None):
                     f.close()
                     if not okf:
                         problems.append("accepted, but libgraphite2 rejects the font")
-                    if reader is not None and true_value == "skip=len":
+                    if true_value == "MUST-REJECT":
+                        problems.append("accepted although the quantity is above the declared maximum (no error names the limit)")
+                    elif reader is not None and true_value == "skip=len":
                         got, want = reader(s, g)
                         if got != want:
                             problems.append("accepted, but the context-item skip byte is %d while the guarded code is %d bytes long (wrapped)" % (got, want))
